@@ -71,6 +71,128 @@ theorem position {F : Type} (w : IcptId → F → F) (pre post : List IcptId) (r
   rw [C16.chain_flat]
   simp [Opt.flattenList, Opt.flatten, List.filterMap_map, List.foldr_append]
 
+/-! ### chains in which interceptors panic too (model `runChain`) -/
+
+theorem runChain_recover_snd (h : Nat → PanicVal → α) (id : Nat) (xs : List Layer) (body : Outcome α) :
+    (runChain h (.recover id :: xs) body).2 =
+      (runChain h xs body).2 ++ (recoverFrame (runChain h xs body).1 (h id)).handleCalls.map (fun v => (id, v)) := rfl
+
+/-- a recover frame around something that returned or re-raised the sentinel calls nobody -/
+theorem frame_quiet_of_contained (o : Outcome α) (g : PanicVal → α)
+    (ho : (∃ a, o = .ret a) ∨ o = .panic .abort) : (recoverFrame o g).handleCalls = [] := by
+  rcases ho with ⟨x, rfl⟩ | rfl <;> simp [recoverFrame]
+
+/-- **chain_contains**: nothing but the abort sentinel ever leaves a recover frame as a panic,
+    whatever the layers below it and the handler do. -/
+theorem chain_contains (h : Nat → PanicVal → α) (id : Nat) (rest : List Layer) (body : Outcome α) :
+    (∃ a, (runChain h (.recover id :: rest) body).1 = .ret a) ∨
+    (runChain h (.recover id :: rest) body).1 = .panic .abort := by
+  simp only [runChain]
+  cases hb : (runChain h rest body).1 with
+  | ret a => left; exact ⟨a, by simp [recoverFrame]⟩
+  | panic v =>
+    by_cases hv : v = .abort
+    · right; simp [recoverFrame, hv]
+    · left; exact ⟨h id v, by simp [recoverFrame, hv]⟩
+
+/-- without a recover frame nobody is called -/
+theorem chain_no_recover_no_calls (h : Nat → PanicVal → α) (ls : List Layer) (body : Outcome α)
+    (hn : ∀ l ∈ ls, l.isRecover = false) : (runChain h ls body).2 = [] := by
+  induction ls with
+  | nil => simp [runChain]
+  | cons l rest ih =>
+    have ih' := ih (fun x hx => hn x (List.mem_cons_of_mem _ hx))
+    cases l with
+    | pass => simpa [runChain] using ih'
+    | panicBefore v => simp [runChain]
+    | panicAfter v =>
+      simp only [runChain]
+      split <;> simp_all
+    | recover id => simpa [Layer.isRecover] using hn (.recover id) (List.mem_cons_self ..)
+
+/-- **chain_pre_transparent**: interceptors declared before the recover frame that only pass the
+    call on see - and hand up - exactly what the recover frame produced. -/
+theorem chain_pre_transparent (h : Nat → PanicVal → α) (pre rest : List Layer) (body : Outcome α)
+    (hp : ∀ l ∈ pre, l.isPass = true) :
+    runChain h (pre ++ rest) body = runChain h rest body := by
+  induction pre with
+  | nil => rfl
+  | cons l pre ih =>
+    have ih' := ih (fun x hx => hp x (List.mem_cons_of_mem _ hx))
+    cases l with
+    | pass => simpa [runChain] using ih'
+    | panicBefore v => simpa [Layer.isPass] using hp (.panicBefore v) (List.mem_cons_self ..)
+    | panicAfter v => simpa [Layer.isPass] using hp (.panicAfter v) (List.mem_cons_self ..)
+    | recover id => simpa [Layer.isPass] using hp (.recover id) (List.mem_cons_self ..)
+
+/-- **chain_panic_below_reaches**: a panic raised anywhere below the recover frame - by the
+    handler or by an interceptor declared after `WithRecover` - with a value other than the
+    sentinel reaches that frame's recovery function exactly once, with that value, and the frame
+    returns what the function produced. -/
+theorem chain_panic_below_reaches (h : Nat → PanicVal → α) (id : Nat) (post : List Layer)
+    (body : Outcome α) (v : PanicVal) (hn : ∀ l ∈ post, l.isRecover = false)
+    (hpanic : (runChain h post body).1 = .panic v) (hv : v ≠ .abort) :
+    runChain h (.recover id :: post) body = (.ret (h id v), [(id, v)]) := by
+  have hc := chain_no_recover_no_calls h post body hn
+  simp [runChain, hpanic, hc, recoverFrame, hv]
+
+/-- **chain_nested_outer_quiet**: of two recover frames with only passing interceptors between
+    them, the outer one's recovery function is never called: the inner frame has already turned
+    the panic into an error (or re-raised the sentinel, which the outer frame re-raises too). -/
+theorem chain_nested_outer_quiet (h : Nat → PanicVal → α) (a b : Nat) (mid rest : List Layer)
+    (body : Outcome α) (hm : ∀ l ∈ mid, l.isPass = true) :
+    (runChain h (.recover a :: (mid ++ .recover b :: rest)) body).2 =
+      (runChain h (.recover b :: rest) body).2 := by
+  have ht := chain_pre_transparent h mid (.recover b :: rest) body hm
+  rw [runChain_recover_snd h a, ht, frame_quiet_of_contained _ _ (chain_contains h b rest body)]
+  simp
+
+/-- every recovery call is made by a frame of the chain, and there are no more calls than frames -/
+theorem chain_calls_le_frames (h : Nat → PanicVal → α) (ls : List Layer) (body : Outcome α) :
+    (runChain h ls body).2.length ≤ (ls.filter Layer.isRecover).length := by
+  induction ls with
+  | nil => simp [runChain]
+  | cons l rest ih =>
+    cases l with
+    | pass => simpa [runChain, Layer.isRecover] using ih
+    | panicBefore v => simp [runChain]
+    | panicAfter v =>
+      simp only [runChain]
+      split <;> (rename_i heq; rw [heq] at ih; simpa [Layer.isRecover] using ih)
+    | recover id =>
+      have h1 := (exactly_once_or_never (runChain h rest body).1 (h id)).1
+      have h2 : ((Layer.recover id :: rest).filter Layer.isRecover).length
+          = (rest.filter Layer.isRecover).length + 1 := by
+        rw [List.filter_cons_of_pos (by rfl)]; rfl
+      rw [runChain_recover_snd]
+      simp only [List.length_append, List.length_map]
+      omega
+
+/-- **chain_abort_passes_all**: the sentinel raised by the handler leaves a chain of passing
+    interceptors and recover frames untouched, and nobody's recovery function runs. -/
+theorem chain_abort_passes_all (h : Nat → PanicVal → α) (ls : List Layer)
+    (hl : ∀ l ∈ ls, l.isPass = true ∨ l.isRecover = true) :
+    runChain h ls (.panic .abort) = (.panic .abort, []) := by
+  induction ls with
+  | nil => rfl
+  | cons l rest ih =>
+    have ih' := ih (fun x hx => hl x (List.mem_cons_of_mem _ hx))
+    cases l with
+    | pass => simpa [runChain] using ih'
+    | panicBefore v => simpa [Layer.isPass, Layer.isRecover] using hl (.panicBefore v) (List.mem_cons_self ..)
+    | panicAfter v => simpa [Layer.isPass, Layer.isRecover] using hl (.panicAfter v) (List.mem_cons_self ..)
+    | recover id => simp [runChain, ih', recoverFrame]
+
+/-- a panic of an interceptor declared *before* `WithRecover` is not that frame's business -/
+theorem chain_panic_above_escapes (h : Nat → PanicVal → α) (v : PanicVal) (rest : List Layer)
+    (body : Outcome α) : runChain h (.panicBefore v :: rest) body = (.panic v, []) := rfl
+
+/-! non-vacuity: an interceptor below the frame panics after the handler returned; the outer
+    interceptor panics after the frame returned and a second, outer frame deals with that -/
+example : runChain (α := Nat) (fun id _ => 90 + id) [.recover 1, .panicAfter (.other 5), .recover 2, .pass, .panicAfter .nil] (.ret 0)
+    = (.ret 91, [(2, .nil), (1, .other 5)]) := by
+  simp [runChain, recoverFrame]
+
 /-! non-vacuity -/
 example : (recoverFrame (α := Nat) (.panic (.other 7)) (fun _ => 99)).handleCalls = [.other 7] := by decide
 
